@@ -165,6 +165,11 @@ def run_fuzz_stage(prop_id, subs, seed, args, pool):
                                       'harness_error': 'fuzz campaign: ' + f.get('message', '')[-3000:]})
                 elif rc != 0 or not st.get('done'):
                     ps['inconclusive'] += 1      # killed at the budget or ended early: says nothing
+                    try:
+                        tail = open(os.path.join(work, 'log.txt'), errors='replace').read()[-600:]
+                    except OSError:
+                        tail = ''
+                    ps.setdefault('inconclusive_log', []).append('rc=%s executions=%s ...%s' % (rc, st.get('executions'), tail))
             if block and running:
                 time.sleep(0.2)
 
